@@ -215,6 +215,11 @@ def budget(tier):
     return dict(examples=160000, wall=1500)
 
 
+def _big_drawers(case):
+    case['config']['discard_heavy'] = True
+    return case
+
+
 def strategy(tier):
     return st.one_of(
         gen.cases(tape_size=110, rake=False, divmods=False,
@@ -225,6 +230,14 @@ def strategy(tier):
                          'NS')),
         gen.cases(tape_size=110, rake=False, divmods=False,
                   chips=('int',), unknown=True, profiles=(0, 4, 5)),
+        # full draw tables of big drawers, the dealer naming the cards: the
+        # deck runs short while discards lie in the reserve
+        gen.cases(tape_size=130, rake=False, divmods=False, chips=('int',),
+                  min_players=5, profiles=(4, 4, 5, 6), custom=False,
+                  games=('F2L3D', 'N2L1D', 'FB'),
+                  mask_strategy=st.sampled_from(
+                      [2047 & ~(1 << 4), 2047 & ~(1 << 4) & ~(1 << 3), 0,
+                       2047])).map(_big_drawers),
     )
 
 
